@@ -51,7 +51,14 @@ EventCases ==
 Clip2 == [id |-> 2, anns |-> <<[g |-> <<I1>>, cls |-> 2], [g |-> <<>>, cls |-> 9]>>, preds |-> <<[g |-> <<I4>>, sc |-> <<1, 2>>], [g |-> <<I1>>, sc |-> <<0, 4>>]>>]
 Clip3 == [id |-> 3, anns |-> <<[g |-> <<I3>>, cls |-> 1]>>, preds |-> <<>>]
 Orders == {s \in SeqsOf({1, 2, 3}, 3) : 1 \in Range(s) /\ \A i, j \in DOMAIN s : i # j => s[i] # s[j]}
-ClipCases == {[kind |-> "lat", vocab |-> v, clips |-> <<Anchor, Clip2, Clip3>>, porder |-> p, aorder |-> a] :
+\* cv: which Clip OBJECT the prediction side holds for a clip -- 0 the very object of the annotation side, 1 an equal copy,
+\* 2 a copy with the same uuid and an extra clip-level feature, 3 a copy with the same uuid whose end was re-derived
+\* (one ulp off).  A clip is "present in both inputs" by its identity (uuid): no clause reads cv.  Spread over the cases.
+WithCv(x, k) == [id |-> x.id, anns |-> x.anns, preds |-> x.preds, cv |-> k]
+ClipCases == {[kind |-> "lat", vocab |-> v,
+               clips |-> <<WithCv(Anchor, (Len(p) + 2 * Len(a) + v) % 4), WithCv(Clip2, (1 + Len(p) + Len(a) + p[1]) % 4),
+                           WithCv(Clip3, (a[1] + v) % 4)>>,
+               porder |-> p, aorder |-> a] :
                  p \in Orders, a \in Orders, v \in {2, 3}}
 \* "holes": a region with an interior ring (as MultiPolygon and as Polygon), a box strictly inside the hole, a box inside
 \* it touching its border, a box across it
@@ -65,7 +72,8 @@ HoleCases ==
         x \in {y \in SeqsOf([g : HoleGeoms, cls : {1}], 2) \X SeqsOf([g : HoleGeoms, sc : {<<3, 1>>}], 2) :
                   Len(y[1]) + Len(y[2]) <= 3 /\ Len(y[1]) >= 1 /\ Len(y[2]) >= 1}}
 \* time-only events against boxes: a TimeStamp (grown by the default 0.01 s) and a TimeInterval, overlapping / touching / apart
-TimeGeoms == {<<G("TimeStamp", 2)>>, <<G("TimeInterval", <<1, 3>>)>>, <<I1>>, <<I3>>}
+TimeGeoms == {<<G("TimeStamp", 2)>>, <<G("TimeInterval", <<1, 3>>)>>, <<I1>>, <<I3>>,
+              <<G("BoundingBox", <<1, 2, 4, 2>>)>>}        \* a flat box (low = high): zero area, positive duration
 TimeCases ==
     {[kind |-> "lat", vocab |-> 2, clips |-> <<Anchor, [id |-> 2, anns |-> x[1], preds |-> x[2]]>>,
       porder |-> <<2, 1>>, aorder |-> <<1, 2>>] :
